@@ -27,6 +27,11 @@ PNG = b'\x89PNG\r\n\x1a\n'
 
 
 def cases(tier, seed):
+    # several workbooks analysed by one process (first: nothing may be remembered from one analysis to the next): an analysis without
+    # figures followed by one with figures in another directory, and the other way round
+    sq = dict(ninst=1, nbeads=1, nsamples=2, units='mixed', cont='int', hist=True, outpath='default', nfl=2, cluster='all')
+    for plots in ([False, True], [True, False, True], [True, True]):
+        yield dict(kind='run-sequence', cfgs=[dict(sq, plot=p_, wbname='experiment%d' % i) for i, p_ in enumerate(plots)])
     tables = list(itertools.product(range(len(CELLS)), repeat=4))
     for i in range(0, len(tables), 162):
         yield dict(kind='roundtrip2x2', start=i, stop=min(len(tables), i + 162))
@@ -35,7 +40,7 @@ def cases(tier, seed):
     dims = [('ninst', [1, 2]), ('nbeads', [1, 0, 2]), ('nsamples', [2, 1, 3]), ('units', ['mixed', 'all-mef', 'channel', 'none', 'all-rfi']),
             ('cont', ['int', 'float']), ('plot', [False, True]), ('hist', [False, True]), ('outpath', ['default', 'explicit', 'relative']),
             ('nfl', [2, 3, 4, 11]), ('cluster', ['all', 'one']), ('wbname', ['experiment', 'cells', 'samples.x', 'xls', 'Tables 2020-01']),
-            ('ids', ['text', 'numbers']), ('hdr', ['plain', 'blanks'])]
+            ('ids', ['text', 'numbers', 'dotted']), ('hdr', ['plain', 'blanks'])]
     if tier == 'quick':
         cfgs = [dict(ninst=1, nbeads=1, nsamples=2, units='mixed', cont='int', plot=True, hist=True, outpath='default', nfl=2, cluster='all'),
                 dict(ninst=1, nbeads=1, nsamples=1, units='all-mef', cont='int', plot=True, hist=False, outpath='explicit', nfl=3, cluster='all'),
@@ -49,6 +54,8 @@ def cases(tier, seed):
                 dict(ninst=1, nbeads=0, nsamples=1, units='none', cont='int', plot=False, hist=True, outpath='default', nfl=2, cluster='all', wbname='xls'),
                 dict(ninst=2, nbeads=2, nsamples=2, units='mixed', cont='int', plot=True, hist=True, outpath='default', nfl=2, cluster='all', ids='numbers'),
                 dict(ninst=1, nbeads=1, nsamples=3, units='mixed', cont='int', plot=True, hist=True, outpath='relative', nfl=2, cluster='all'),
+                dict(ninst=1, nbeads=1, nsamples=3, units='mixed', cont='int', plot=True, hist=True, outpath='default', nfl=2, cluster='all', ids='dotted'),
+                dict(ninst=1, nbeads=1, nsamples=2, units='all-rfi', cont='float', plot=False, hist=True, outpath='explicit', nfl=2, cluster='all', ids='dotted'),
                 dict(ninst=1, nbeads=1, nsamples=2, units='mixed', cont='int', plot=False, hist=True, outpath='default', nfl=3, cluster='all', hdr='blanks')]
     else:
         cfgs = list(explore.deviations(dims, 1)) + [c for c in explore.deviations(dims, 2) if c['_dev'] == 2 and c['plot'] and (c['nfl'] == 3 or c['hist'])]
@@ -191,6 +198,10 @@ def build(cfg, d):
     bead_id = (lambda k: 'B%03d' % (k + 1)) if ids == 'text' else (lambda k: k + 1)
     # text identifiers whose sheet order is not their lexicographic order (S9, S10, S11 ...)
     sample_id = (lambda k: 'S%d' % (k + 9)) if ids == 'text' else (lambda k: 101 + k)
+    if ids == 'dotted':
+        # identifiers with periods in them (replicate numbers, dates, file-like names): a figure is still <identifier>.png
+        bead_id = lambda k: 'beads.lot%d' % (k + 1)
+        sample_id = lambda k: ['wt.rep2', '2024.01.15_A', 'strain 3.b.pdf', 'S1.'][k % 4]
     if ids == 'numbers':
         for i, inst in enumerate(insts):
             inst['id'] = 7 + i
@@ -377,6 +388,18 @@ def run_case(c):
             res.sample({'tables': '3x3 latin arrangements, string and numeric identifiers'})
         elif k == 'ids':
             run_ids(res, d)
+        elif k == 'run-sequence':
+            for i, cfg in enumerate(c['cfgs']):
+                sub = run_case(dict(kind='run', cfg=cfg))
+                for v in sub.violations:
+                    res.violations.append({'sig': 'sequence:' + v['sig'], 'msg': 'analysis %d of %d in one process (plots %s): %s' % (
+                        i + 1, len(c['cfgs']), [x['plot'] for x in c['cfgs']], v['msg']), 'case': dict(c)})
+                res.n += sub.n
+                res.nontrivial += sub.nontrivial
+                res.classes.update(sub.classes)
+                for ck, cv in sub.counters.items():
+                    res.counters[ck] += cv
+            res.sample({'sequence of analyses': [x['plot'] for x in c['cfgs']]})
         elif k == 'run':
             cfg = c['cfg']
             with warnings.catch_warnings():
